@@ -14,6 +14,7 @@ package c19
 import (
 	"fmt"
 	"runtime"
+	"strconv"
 	"sync"
 	"sync/atomic"
 	"time"
@@ -47,7 +48,14 @@ func stressOnce(limit, tasks int, seed uint64, submitters int) stressResult {
 		badMu.Unlock()
 	}
 	runs := make([]atomic.Int32, tasks)
+	var nilHandled atomic.Int64
+	nilPanics := 0 // functions ending with panic(nil) under GODEBUG=panicnil=1
 	l := goz.NewLimiter(limit).SetPanicHandler(func(v any) {
+		if v == nil {
+			// no value: tolerated only on behalf of a panic(nil) under panicnil=1 (counted below)
+			nilHandled.Add(1)
+			return
+		}
 		handled.Add(1)
 		id, ok := -1, true
 		switch x := v.(type) {
@@ -80,9 +88,12 @@ func stressOnce(limit, tasks int, seed uint64, submitters int) stressResult {
 	}
 	subs := make([]sub, tasks)
 	for i := range subs {
-		subs[i] = sub{i: i, panics: r.Chance(20), spin: r.Intn(4), kind: r.Intn(5)}
-		if subs[i].panics {
-			res.Panics++
+		subs[i] = sub{i: i, panics: r.Chance(20), spin: r.Intn(4), kind: r.Intn(8)}
+		if subs[i].panics && subs[i].kind <= 5 {
+			res.Panics++ // endings whose value recover() reports: the handler must be called
+		}
+		if subs[i].panics && subs[i].kind == 6 {
+			nilPanics++
 		}
 	}
 	var sw sync.WaitGroup
@@ -108,7 +119,10 @@ func stressOnce(limit, tasks int, seed uint64, submitters int) stressResult {
 	// handler calls happen before Done, hence before Wait returned
 	res.Handled = handled.Load()
 	if res.Handled != int64(res.Panics) {
-		setBad(fmt.Sprintf("%d functions panicked but the handler was called %d times when Wait() returned", res.Panics, res.Handled))
+		setBad(fmt.Sprintf("%d functions ended with a panic whose value recover() reports but the handler was called %d times when Wait() returned", res.Panics, res.Handled))
+	}
+	if nh := nilHandled.Load(); nh > int64(nilPanics) {
+		setBad(fmt.Sprintf("the handler was called %d times with the nil interface but only %d functions ended with panic(nil) under GODEBUG=panicnil=1 (a handler call on behalf of a function that returned or called runtime.Goexit)", nh, nilPanics))
 	}
 	for i := range runs {
 		if c := runs[i].Load(); c != 1 && res.Finished == int64(tasks) {
@@ -146,9 +160,15 @@ func stressSubmit(l *goz.Limiter, i, spin, kind int, panics bool, runs []atomic.
 			case 2:
 				panic(customPanic{N: i, Tag: "c"})
 			case 3:
-				panic(nil)
-			default:
+				panicNil(false) // panic(nil), Go >= 1.21 default: *runtime.PanicNilError
+			case 4:
 				panic((*int)(nil)) // typed nil: a non-nil interface value
+			case 5:
+				endTask("repanic", strconv.Itoa(i)) // re-panic in a deferred function
+			case 6:
+				panicNil(true) // panic(nil) under GODEBUG=panicnil=1: recover() returns nil, no handler call
+			default:
+				runtime.Goexit() // not a panic: deferred cleanup runs, no handler call
 			}
 		}
 	})
@@ -184,7 +204,7 @@ func stressExtra(ctx *core.Ctx) (int, string, []core.ExtraFailure) {
 			res = stressResult{Limit: limit, Tasks: tasks, Seed: seed}
 			if provenDeadlock("goz.(*Limiter).add") || provenDeadlock("sync.(*WaitGroup).Wait") {
 				fails = append(fails, core.ExtraFailure{
-					Failure: core.Failure{Key: "deadlock", Desc: fmt.Sprintf("free-running Limiter(limit=%d), %d tasks (20%% panicking): the run is blocked inside Go()/Wait() and no worker goroutine exists that could release it (slot or WaitGroup count leaked)", limit, tasks)},
+					Failure: core.Failure{Key: "deadlock", Desc: fmt.Sprintf("free-running Limiter(limit=%d), %d tasks (20%% ending with a panic of some kind or runtime.Goexit): the run is blocked inside Go()/Wait() and no worker goroutine exists that could release it (slot or WaitGroup count leaked)", limit, tasks)},
 					Payload: res})
 			} else {
 				inconclusive++
@@ -210,5 +230,5 @@ func stressExtra(ctx *core.Ctx) (int, string, []core.ExtraFailure) {
 			break
 		}
 	}
-	return total, fmt.Sprintf("%d rounds × %d tasks (1 or 3 submitting goroutines; 20%% panicking with int / error / struct / nil / typed-nil values), max functions inside at once per capacity: %v", rounds, tasks, maxSeen), fails
+	return total, fmt.Sprintf("%d rounds × %d tasks (1 or 3 submitting goroutines; 20%% ending unusually: panic with int / error / struct / nil / typed-nil values, re-panic in a deferred function, panic(nil) under GODEBUG=panicnil=1, runtime.Goexit), max functions inside at once per capacity: %v", rounds, tasks, maxSeen), fails
 }
